@@ -1558,6 +1558,216 @@ def gen_sort_write():
 GENERATORS["SortWrite"] = gen_sort_write
 
 
+# ---------------------------------------------------------------------------------------------------------
+# GFA.biccs: the body of the `while stack:` loop, statement by statement (C15, C06, C18)
+
+def gen_biccs():
+    _, src = src_of("gaftools/gfa.py")
+    fn = find_func(ast.parse(src), "biccs", cls="GFA")
+    inner = {n.name: n for n in fn.body if isinstance(n, ast.FunctionDef)}
+    # -- the two helper functions must be what the translation assumes
+    es = inner.get("edge_stack_to_set")
+    if es is None or [ast.unparse(x) for x in es.body if not (isinstance(x, ast.Expr) and isinstance(x.value, ast.Constant))] != [
+            "out_set = set()", "for es in edge_stack:\n    for n in es:\n        out_set.add(n)", "return out_set"]:
+        raise Untranslatable("edge_stack_to_set is not 'the set of all endpoints'")
+    nc = inner.get("next_child")
+    if nc is None:
+        raise Untranslatable("next_child not found")
+    ncb = [x for x in nc.body if not (isinstance(x, ast.Expr) and isinstance(x.value, ast.Constant))]
+    arg = nc.args.args[0].arg
+
+    def nc_expr(e):
+        u = ast.unparse(e)
+        table = {"not %s[3]" % arg: "f.nbrs.isEmpty", "%s[2] >= len(%s[3])" % (arg, arg): "decide (f.ptr ≥ f.nbrs.length)",
+                 "%s[2] > len(%s[3])" % (arg, arg): "decide (f.ptr > f.nbrs.length)", "%s[2] == len(%s[3])" % (arg, arg): "(f.ptr == f.nbrs.length)"}
+        if u in table:
+            return table[u]
+        raise Untranslatable("next_child test: %s" % u)
+
+    def nc_block(stmts, bumped):
+        if not stmts:
+            return "(none, f)"
+        st, rest = stmts[0], stmts[1:]
+        if isinstance(st, ast.Return):
+            if st.value is None or (isinstance(st.value, ast.Constant) and st.value.value is None):
+                return "(none, %s)" % ("{ f with ptr := f.ptr + %d }" % bumped if bumped else "f")
+            u = ast.unparse(st.value)
+            m = re.fullmatch(r"%s\[3\]\[%s\[2\]( - (\d+))?\]" % (arg, arg), u)
+            if not m:
+                raise Untranslatable("next_child returns %s" % u)
+            back = int(m.group(2) or 0)
+            return "(some (f.nbrs.getD (f.ptr + %d - %d) \"\"), { f with ptr := f.ptr + %d })" % (bumped, back, bumped)
+        if isinstance(st, ast.AugAssign) and ast.unparse(st.target) == "%s[2]" % arg and isinstance(st.op, ast.Add) and isinstance(st.value, ast.Constant):
+            return nc_block(rest, bumped + st.value.value)
+        if isinstance(st, ast.If):
+            if bumped:
+                raise Untranslatable("next_child: test after the increment")
+            return "(if %s then %s else %s)" % (nc_expr(st.test), nc_block(st.body + rest, 0), nc_block(st.orelse + rest, 0))
+        raise Untranslatable("next_child statement: %s" % ast.unparse(st)[:60])
+    next_child = nc_block(ncb, 0)
+    # -- the outer loop: initial state, while body, the root rule
+    outer = _only([st for st in fn.body if isinstance(st, ast.For) and ast.unparse(st.iter) == "set_of_nodes"], "loop over the start nodes")
+    root = ast.unparse(outer.target)
+    init, loop, after = {}, None, []
+    for st in outer.body:
+        u = ast.unparse(st)
+        if isinstance(st, ast.If) and u == "if %s in visited:\n    continue" % root:
+            continue
+        if isinstance(st, ast.While):
+            if ast.unparse(st.test) != "stack" or loop is not None:
+                raise Untranslatable("while loop of biccs")
+            loop = st
+            continue
+        if loop is None:
+            if isinstance(st, ast.Assign) and len(st.targets) == 1:
+                init[ast.unparse(st.targets[0])] = ast.unparse(st.value)
+                continue
+            if u == "visited.add(%s)" % root:
+                init["visited.add"] = root
+                continue
+            raise Untranslatable("before the while loop: %s" % u[:60])
+        after.append(st)
+    want = {"discovery": "{%s: 0}" % root, "low": "{%s: 0}" % root, "root_children": "0", "artic_points": "set()", "components": "[]",
+            "visited.add": root, "edge_stack": "[]", "edge_stack_loc": "dict()", "neighbors": "self[%s].neighbors()" % root,
+            "stack": "[[%s, %s, 0, neighbors]]" % (root, root)}
+    if init != want:
+        raise Untranslatable("initial state of a search: %s" % {k: v for k, v in init.items() if want.get(k) != v})
+    if [ast.unparse(x) for x in after] != ["if root_children > 1:\n    artic_points.add(%s)" % root]:
+        # translate the root rule's threshold
+        m = re.fullmatch(r"if root_children (>|>=) (\d+):\n    artic_points.add\(%s\)" % root, "\n".join(ast.unparse(x) for x in after))
+        if not m:
+            raise Untranslatable("after the while loop: %s" % [ast.unparse(x)[:50] for x in after])
+        root_rule = "decide (rc %s %s)" % ({">": ">", ">=": "≥"}[m.group(1)], m.group(2))
+    else:
+        root_rule = "decide (rc > 1)"
+    body = loop.body
+    if [ast.unparse(x) for x in body[:3]] != ["parent = stack[-1][0]", "child = stack[-1][1]", "nn = next_child(stack[-1])"]:
+        raise Untranslatable("head of the while body: %s" % [ast.unparse(x) for x in body[:3]])
+    if not (len(body) == 4 and isinstance(body[3], ast.If) and ast.unparse(body[3].test) == "nn" and len(body[3].orelse) == 1
+            and isinstance(body[3].orelse[0], ast.If) and ast.unparse(body[3].orelse[0].test) == "nn is None" and not body[3].orelse[0].orelse):
+        raise Untranslatable("while body is not `if nn: … elif nn is None: …`")
+    names = {"parent": "parent", "child": "child", "nn": "nn", "cut_point": "cut_point", "comp": "comp"}
+
+    def val(e):
+        u = ast.unparse(e)
+        if isinstance(e, ast.Name) and e.id in names:
+            return names[e.id]
+        if isinstance(e, ast.Constant) and isinstance(e.value, int) and not isinstance(e.value, bool):
+            return str(e.value)
+        if isinstance(e, ast.Tuple) and len(e.elts) == 2:
+            return "(%s, %s)" % (val(e.elts[0]), val(e.elts[1]))
+        if isinstance(e, ast.Subscript) and isinstance(e.value, ast.Name) and e.value.id in ("low", "discovery", "edge_stack_loc"):
+            fld = {"low": "low", "discovery": "disc", "edge_stack_loc": "loc"}[e.value.id]
+            return "((lookup %s s.%s).getD 0)" % (val(e.slice), fld)
+        if u == "len(edge_stack)":
+            return "s.estack.length"
+        if u == "len(discovery)":
+            return "s.disc.length"
+        if u == "len(stack)":
+            return "s.stack.length"
+        if isinstance(e, ast.BinOp) and type(e.op) in (ast.Add, ast.Sub):
+            return "(%s %s %s)" % (val(e.left), "+" if isinstance(e.op, ast.Add) else "-", val(e.right))
+        if isinstance(e, ast.Call) and ast.unparse(e.func) == "min" and len(e.args) == 2:
+            return "(min %s %s)" % (val(e.args[0]), val(e.args[1]))
+        if isinstance(e, ast.Call) and ast.unparse(e.func) == "edge_stack_to_set" and len(e.args) == 1:
+            a = e.args[0]
+            if isinstance(a, ast.Subscript) and ast.unparse(a.value) == "edge_stack" and isinstance(a.slice, ast.Slice) and a.slice.upper is None and a.slice.step is None and a.slice.lower is not None:
+                return "(nodesOf (s.estack.drop %s))" % val(a.slice.lower)
+        if isinstance(e, ast.List) and len(e.elts) == 4 and ast.unparse(e.elts[3]) == "self[%s].neighbors()" % ast.unparse(e.elts[1]):
+            return "(⟨%s, %s, %s, nb %s⟩ : Frame)" % (val(e.elts[0]), val(e.elts[1]), val(e.elts[2]), val(e.elts[1]))
+        raise Untranslatable("biccs value: %s" % u)
+
+    def cond(e):
+        u = ast.unparse(e)
+        if isinstance(e, ast.BoolOp):
+            return "(" + (" && " if isinstance(e.op, ast.And) else " || ").join(cond(x) for x in e.values) + ")"
+        if isinstance(e, ast.UnaryOp) and isinstance(e.op, ast.Not):
+            return "(!%s)" % cond(e.operand)
+        if u == "stack":
+            return "(!s.stack.isEmpty)"
+        if isinstance(e, ast.Compare) and len(e.ops) == 1:
+            l, r, t = e.left, e.comparators[0], type(e.ops[0])
+            if t in (ast.In, ast.NotIn) and ast.unparse(r) == "visited":
+                c = "s.visited.contains %s" % val(l)
+                return "(%s)" % c if t is ast.In else "(!%s)" % c
+            if t in (ast.Eq, ast.NotEq) and isinstance(l, ast.Name) and isinstance(r, ast.Name):
+                c = "(%s == %s)" % (val(l), val(r))
+                return c if t is ast.Eq else "(!%s)" % c
+            op = {ast.Lt: "<", ast.Gt: ">", ast.LtE: "≤", ast.GtE: "≥", ast.Eq: "=", ast.NotEq: "≠"}.get(t)
+            if op:
+                return "decide (%s %s %s)" % (val(l), op, val(r))
+        raise Untranslatable("biccs test: %s" % u)
+
+    def ex(stmts, ind):
+        pad = " " * ind
+        if not stmts:
+            return pad + "s"
+        st, rest = stmts[0], stmts[1:]
+        u = ast.unparse(st)
+        if isinstance(st, ast.Expr) and isinstance(st.value, ast.Constant):
+            return ex(rest, ind)
+        if isinstance(st, ast.Continue):
+            return pad + "s"
+
+        def upd(text):
+            return "%slet s : BSt := { s with %s }\n%s" % (pad, text, ex(rest, ind))
+        if isinstance(st, ast.If):
+            return "%sif %s then\n%s\n%selse\n%s" % (pad, cond(st.test), ex(st.body + rest, ind + 2), pad, ex(st.orelse + rest, ind + 2))
+        if isinstance(st, ast.Assign) and len(st.targets) == 1:
+            t = st.targets[0]
+            if isinstance(t, ast.Name) and t.id in ("cut_point", "comp"):
+                return "%slet %s := %s\n%s" % (pad, t.id, val(st.value), ex(rest, ind))
+            if isinstance(t, ast.Subscript) and isinstance(t.value, ast.Name) and t.value.id in ("low", "discovery", "edge_stack_loc"):
+                fld = {"low": "low", "discovery": "disc", "edge_stack_loc": "loc"}[t.value.id]
+                return upd("%s := setKV %s %s s.%s" % (fld, val(t.slice), val(st.value), fld))
+        if isinstance(st, ast.AugAssign) and u == "root_children += 1":
+            return upd("rootChildren := s.rootChildren + 1")
+        if isinstance(st, ast.Delete) and len(st.targets) == 1:
+            t = st.targets[0]
+            if (isinstance(t, ast.Subscript) and ast.unparse(t.value) == "edge_stack" and isinstance(t.slice, ast.Slice) and t.slice.upper is None
+                    and t.slice.step is None and t.slice.lower is not None):
+                return upd("estack := s.estack.take %s" % val(t.slice.lower))
+        if isinstance(st, ast.Expr) and isinstance(st.value, ast.Call) and len(st.value.args) <= 1 and not st.value.keywords:
+            f = ast.unparse(st.value.func)
+            a = st.value.args[0] if st.value.args else None
+            if f == "edge_stack.append":
+                return upd("estack := s.estack ++ [%s]" % val(a))
+            if f == "visited.add":
+                return upd("visited := %s :: s.visited" % val(a))
+            if f == "stack.append":
+                return upd("stack := %s :: s.stack" % val(a))
+            if f == "stack.pop" and a is None:
+                return upd("stack := s.stack.tail")
+            if f == "artic_points.add":
+                return upd("aps := insertSet %s s.aps" % val(a))
+            if f == "components.append":
+                return upd("comps := s.comps ++ [%s]" % val(a))
+        raise Untranslatable("biccs statement: %s" % u[:70])
+    then_b = ex(body[3].body, 6)
+    none_b = ex(body[3].orelse[0].body, 6)
+    return ("import Gaftools.Model.Algo\n"
+            "/-! generated by harness/translate.py from gaftools/gfa.py : GFA.biccs, one iteration of `while stack:` translated statement by\n"
+            "    statement (the Python list `stack` with its END first; dictionaries as association lists whose newest entry shadows) — do not edit -/\n"
+            "namespace Gaftools.Gen\nopen Gaftools.Algo\n\n"
+            "/-- `next_child(stack_item)`: the neighbour to look at (or `None`) and the stack item after the call -/\n"
+            "def nextChild (f : Frame) : Option V × Frame :=\n  %s\n\n"
+            "/-- the body of `while stack:`; `nb n` = `self[n].neighbors()`. A neighbour id that is the empty string is falsy in Python:\n"
+            "    neither branch runs (third case) -/\n"
+            "def bstep (nb : V → List V) (s : BSt) : BSt :=\n"
+            "  match s.stack with\n  | [] => s\n  | top :: _ =>\n"
+            "    let parent := top.parent\n    let child := top.child\n"
+            "    let nnO := (nextChild top).1\n"
+            "    let s : BSt := { s with stack := (nextChild top).2 :: s.stack.tail }\n"
+            "    if nnO.isSome && nnO != some \"\" then\n      let nn := nnO.getD \"\"\n%s\n"
+            "    else if nnO.isNone then\n%s\n    else s\n\n"
+            "/-- after the loop: the start node is an articulation point when it has that many tree children -/\n"
+            "def rootIsAp (rc : Nat) : Bool := %s\n"
+            "end Gaftools.Gen\n" % (next_child, then_b, none_b, root_rule))
+
+
+GENERATORS["Biccs"] = gen_biccs
+
+
 def regenerate(only=None):
     """returns {name: {"tie": "A"|"B-only", "detail": str, "changed": bool}}"""
     os.makedirs(GEN, exist_ok=True)
@@ -1583,6 +1793,16 @@ def regenerate(only=None):
 
 
 FALLBACK = {
+    "Biccs": """import Gaftools.Model.Algo
+/-! FALLBACK (source construct outside the translator's subset): hand-written twin re-exported -/
+namespace Gaftools.Gen
+open Gaftools.Algo
+def nextChild (f : Frame) : Option V × Frame :=
+  if f.ptr < f.nbrs.length then (some (f.nbrs.getD f.ptr \"\"), { f with ptr := f.ptr + 1 }) else (none, f)
+def bstep (nb : V → List V) (s : BSt) : BSt := Gaftools.Algo.bstep nb s
+def rootIsAp (rc : Nat) : Bool := decide (rc > 1)
+end Gaftools.Gen
+""",
     "SortWrite": """/-! FALLBACK (source construct outside the translator's subset): the write loop of sort() as modelled by hand -/
 namespace Gaftools.Gen
 /-- what is appended to the right-stripped raw record, and the attributes printed -/
